@@ -67,6 +67,16 @@ CLAIMS = {
         note='Not decided: combinations of initiators in time (the flag is a runtime bit; what is decided is that no path forgets to consult it). Assumes ntex-io refuses '
              'writes once shutdown started (confirmed by experiment in round 0).',
         ref='DESIGN.md section 5 C15'),
+    'C08': dict(
+        technique='who-may-write enumeration + interprocedural write/fail ordering over the encoder call graph (static analysis)',
+        text='All 23 IoRef::encode sites are enumerated and classified: payload chunk, dominated by the Ok edge of check_streaming(), handshake write, or Encoded::Packet '
+             'relying on the codec refusing packets while a payload is owed (that codec guard is itself checked by edge dominance in both Codec::encodev); Encoded::Publish / '
+             'PayloadChunk are constructed only in shared.rs; in the call graph of both encodev functions no function can fail after its own write and no failing function is '
+             'entered after a caller wrote (fixpoint over may-write / may-fail summaries); stream accounting: over-delivery force-closes without writing, the counter is '
+             'decreased by the written length, a dropped unfinished stream always aborts, the codec refuses chunks beyond what is owed.',
+        note='Not decided: the parse of the actual byte stream. Known findings D8 (validation after write, 7 keys) are listed in known_findings.json. Assumes IoRef::encode '
+             'calls Encoder::encodev of the given codec and has no rollback.',
+        ref='DESIGN.md section 5 C08'),
 }
 
 NA_REASONS = {}
